@@ -29,6 +29,13 @@ RBW_X = [
 ]
 LONG_X = ["var g; proc main() is { g := 0; while g < 150000 do g := g + 1; 0(7) }",
           "val put = 1; val get = 2; var g; proc main() is { g := 0; while g < 120000 do g := g + 1; put('K', 256); put(get(0), 256); 0(9) }"]
+# reads from file streams that are missing, empty or exhausted, and from the console past its end: the value is defined
+# (end of input), so it must not depend on the host either
+IO_X = ["val put = 1; val get = 2; proc main() is { put(get(256), 0); put(get(256) + 1, 0); 0(get(256)) }",
+        "val put = 1; val get = 2; proc main() is { put(get(0), 0); put(get(0), 0); put(get(0) - 100, 0); 0(get(0)) }",
+        "val put = 1; val get = 2; var x; proc main() is { x := get(512); put(x, 768); put(x - 190, 0); x := get(511) + get(256); 0(x) }",
+        "val put = 1; val get = 2; var x; var n; proc main() is { n := 0; x := get(256); while (n < 6) and (x ~= 255) do { put(x, 0); x := get(256); n := n + 1 }; 0(x) }"]
+IO_FILES = [{}, {1: b""}, {1: b"A"}, {1: b"hello world"}, {1: b"\xff\x80", 2: b"q"}]
 LOOP_X = ["proc main() is while true do skip", "var g; proc main() is { g := 0; while g >= 0 do g := g + 1 }"]
 
 
@@ -47,29 +54,30 @@ def asm_rbw(rnd):
 
 
 def images(tier, rnd):
-    """-> list of (tag, file bytes, input, kind) kind: rbw | defined | loop"""
+    """-> list of (tag, file bytes, input, kind, files) kind: rbw | defined | loop; files: index -> contents of simin<index>"""
     hx = xrun.build()
     hasm = common.build_cxx("h_asm", ["h_asm.cpp", "repo:hex.cpp"])
     out = []
-    xs = [("rbw%d" % i, s, b"", "rbw") for i, s in enumerate(RBW_X)] + [("loop%d" % i, s, b"", "loop") for i, s in enumerate(LOOP_X)]
+    xs = [("rbw%d" % i, s, b"", "rbw", {}) for i, s in enumerate(RBW_X)] + [("loop%d" % i, s, b"", "loop", {}) for i, s in enumerate(LOOP_X)]
+    for i, s in enumerate(IO_X):
+        for k, fl in enumerate(IO_FILES):
+            xs.append(("io%d_%d" % (i, k), s, b"" if k % 2 == 0 else b"Zq", "defined", fl))
     ngen = 300 if tier == "quick" else 8000
     for i in range(ngen):
         prog, console, files = xgen.random_program(random.Random(rnd.randrange(1 << 62)), size=0.5)
-        if files:
-            continue
-        xs.append(("gen%d" % i, xref.render_program(prog), console, "defined"))
-    res = common.run_harness(hx, [(i, {"src": s, "want": "noexec"}) for i, (_, s, _, _) in enumerate(xs)], args=["cases"], tag="c12x")
-    for i, (tag, s, inp, kind) in enumerate(xs):
+        xs.append(("gen%d" % i, xref.render_program(prog), console, "defined", dict(files)))
+    res = common.run_harness(hx, [(i, {"src": s, "want": "noexec"}) for i, (_, s, _, _, _) in enumerate(xs)], args=["cases"], tag="c12x")
+    for i, (tag, s, inp, kind, files) in enumerate(xs):
         r = res[str(i)]
         if r["status"] == "ok" and r["out"] and r["out"].get("ok"):
-            out.append((tag, common.unhex(r["out"]["file"]), inp, kind))
+            out.append((tag, common.unhex(r["out"]["file"]), inp, kind, files))
     nasm = 60 if tier == "quick" else 2000
     asms = [asm_rbw(rnd) for _ in range(nasm)]
     res = common.run_harness(hasm, [(i, {"src": s}) for i, s in enumerate(asms)], args=["cases"], tag="c12a")
     for i, s in enumerate(asms):
         r = res[str(i)]
         if r["status"] == "ok" and r["out"] and r["out"].get("ok"):
-            out.append(("asm%d" % i, common.unhex(r["out"]["file"]), b"", "rbw"))
+            out.append(("asm%d" % i, common.unhex(r["out"]["file"]), b"", "rbw", {}))
     return out
 
 
@@ -88,10 +96,12 @@ def exe_worker(job):
     cli, imgs, states, cuts = job
     bad = []
     nruns = 0
-    for tag, blob, inp, kind in imgs:
+    for tag, blob, inp, kind, files in imgs:
         d = common.scratch("c12exe")
         p = os.path.join(d, "p.bin")
         open(p, "wb").write(blob)
+        for k, data in files.items():
+            open(os.path.join(d, "simin%d" % k), "wb").write(data)
         opts = [["--max-cycles", "2000000"]]
         if kind == "loop":
             opts = [["--max-cycles", str(c)] for c in cuts]
@@ -103,7 +113,11 @@ def exe_worker(job):
                 try:
                     r = subprocess.run(st["wrap"] + [os.path.join(cli, "hexsim")] + opt + [p], input=inp, stdout=subprocess.PIPE,
                                        stderr=subprocess.PIPE, cwd=d, env=env, timeout=120)
-                    outs.append((st["name"], r.stdout, r.returncode))
+                    so = b"".join(b"[%s]" % n.encode() + open(os.path.join(d, n), "rb").read() for n in sorted(os.listdir(d)) if n.startswith("simout"))
+                    outs.append((st["name"], r.stdout + so, r.returncode))
+                    for n in os.listdir(d):
+                        if n.startswith("simout"):
+                            os.unlink(os.path.join(d, n))
                 except (subprocess.TimeoutExpired, OSError) as e:
                     outs.append((st["name"], b"", "error:%s" % type(e).__name__))
                 nruns += 1
@@ -131,10 +145,12 @@ def memcheck_worker(job):
     cli, imgs = job
     bad = []
     n = 0
-    for tag, blob, inp, kind in imgs:
+    for tag, blob, inp, kind, files in imgs:
         d = common.scratch("c12vg")
         p = os.path.join(d, "p.bin")
         open(p, "wb").write(blob)
+        for k, data in files.items():
+            open(os.path.join(d, "simin%d" % k), "wb").write(data)
         opt = ["--max-cycles", "20000"]
         try:
             r = subprocess.run(["valgrind", "-q", "--error-exitcode=77", "--track-origins=no", os.path.join(cli, "hexsim")] + opt + [p],
@@ -192,19 +208,22 @@ def run(tier, replay=None):
     # ---- (b) in-process, dirty storage, lock-step against zero-memory reference
     fills = [0, 255, 165, 256]
     cases, meta = [], []
-    for i, (tag, blob, inp, kind) in enumerate(imgs):
+    for i, (tag, blob, inp, kind, files) in enumerate(imgs):
         for f in fills:
             for trace in ((0, 1) if kind != "loop" else (0,)):
                 mc = rnd.choice([1, 10, 1000, 100000]) if kind == "loop" else 0
-                cases.append((len(cases), {"file": blob, "input": inp, "fill": f, "fillseed": rnd.randrange(1 << 30), "maxcycles": mc,
-                                           "trace": trace, "hardlimit": 400000}))
+                fields = {"file": blob, "input": inp, "fill": f, "fillseed": rnd.randrange(1 << 30), "maxcycles": mc,
+                          "trace": trace, "hardlimit": 400000}
+                for k, data in files.items():
+                    fields["fin%d" % k] = data
+                cases.append((len(cases), fields))
                 meta.append((i, f, trace, mc))
     res = common.run_harness(hsim, cases, args=["cases"], tag="c12", timeout=6 * 3600)
     groups = {}
     rbw_total = 0
     leaves_range = set()
     for (cid, f), (i, fill, trace, mc) in zip(cases, meta):
-        tag, blob, inp, kind = imgs[i]
+        tag, blob, inp, kind, files = imgs[i]
         r = res[str(cid)]
         v.cov["evaluations"] += 1
         if r["status"] != "ok" or not r["out"]:
@@ -223,7 +242,7 @@ def run(tier, replay=None):
         key = (i, mc)
         groups.setdefault(key, []).append((fill, trace, o))
     for (i, mc), lst in groups.items():
-        tag, blob, inp, kind = imgs[i]
+        tag, blob, inp, kind, files = imgs[i]
         base = lst[0][2]
         for fill, trace, o in lst[1:]:
             same = (o["run_return"] == base["run_return"] and o["consumed"] == base["consumed"] and o["events"] == base["events"]
@@ -242,7 +261,7 @@ def run(tier, replay=None):
     nexe = 1000 if tier == "quick" else 30000
     v.count("images_leaving_the_memory_range_excluded", len(leaves_range))
     imgs = [im for i, im in enumerate(imgs) if i not in leaves_range]
-    sel = [im for im in imgs if im[3] != "defined"] + [im for im in imgs if im[3] == "defined"]
+    sel = [im for im in imgs if im[3] != "defined" or im[0].startswith("io")] + [im for im in imgs if im[3] == "defined" and not im[0].startswith("io")]
     sel = sel[:max(50, nexe // nst)]
     cuts = [1, 7, 100, 5000]
     outs = common.pmap(exe_worker, [(cli, sel[i::W], states, cuts) for i in range(W)])
@@ -255,7 +274,8 @@ def run(tier, replay=None):
     long_runs(v, cli)
     # ---- (c) memcheck
     nvg = 48 if tier == "quick" else 2000
-    vsel = [im for im in imgs if im[3] == "rbw"][:nvg // 2] + [im for im in imgs if im[3] != "rbw"][:nvg // 2]
+    vsel = [im for im in imgs if im[3] == "rbw"][:nvg // 2] + [im for im in imgs if im[0].startswith("io")][::2] + [im for im in imgs if im[3] != "rbw"][:nvg // 2]
+    v.count("images_reading_file_streams", sum(1 for im in imgs if im[4] or im[0].startswith("io")))
     outs = common.pmap(memcheck_worker, [(cli, vsel[i::W]) for i in range(W)])
     for n, bad in outs:
         v.cov["evaluations"] += n
